@@ -1,7 +1,7 @@
 (* Props/C08.v -- property C08: Run is exactly repeated Step and stops only at a break point or an executed HALT.
    Run / Run_iter / Run_enter: Gen/Run.v (fixed text whose shape go2coq checks against cpu.go statement by statement);
    Step is the generated Step. *)
-From Z80V Require Import Proofs.RunProofs.
+From Z80V Require Import Proofs.SpecFacts Proofs.Refresh Proofs.Halted Proofs.RunHalted Proofs.RunProofs.
 
 (* with s_j = the entry state (HALT indication cleared) advanced by j Steps: if n+1 >= 1 is the first index at which
    PC is a break point or a HALT was executed, Run returns exactly s_(n+1) -- ErrBreakPoint if PC is a break point
@@ -28,3 +28,17 @@ Print Assumptions C08_nil_and_empty_breakpoints_agree.
 Theorem C08_stale_halt_discarded : forall cpu, g_HALT (Run_enter cpu) = false.
 Proof. exact Run_enter_clears_halt. Qed.
 Print Assumptions C08_stale_halt_discarded.
+
+(* ---- calling Run again on a halted CPU: parked on a HALT opcode with no request pending, Run -- whatever the halted
+   indication says on entry -- executes exactly one Step and returns: halted again at the same address, every register, flag,
+   flip-flop, I, SP, PC and memory unchanged (halted_same), R one tick further; nil, or ErrBreakPoint if that address is a break point ---- *)
+Theorem C08_run_again_on_halted : forall fuel cpu, (1 <= fuel)%nat -> WF cpu -> g_Memory cpu = UserMem -> g_Interrupt cpu = None ->
+  u8 (ram (g_W cpu) (g_PC cpu)) = 118 ->
+  let cpu' := Step (Run_enter cpu) in
+  Run fuel never cpu = Some (cpu', if bp_hit cpu then RunErrBreakPoint else RunNil) /\
+  halted_same cpu cpu' /\ g_HALT cpu' = true /\ g_IR_Lo cpu' = r_tick (g_IR_Lo cpu).
+Proof. exact Run_again_on_halted. Qed.
+Print Assumptions C08_run_again_on_halted.
+Example C08_halted_premises_hold :
+  WF halt_demo /\ g_Memory halt_demo = UserMem /\ g_Interrupt halt_demo = None /\ u8 (ram (g_W halt_demo) (g_PC halt_demo)) = 118.
+Proof. exact halt_demo_premises. Qed.
